@@ -699,7 +699,7 @@ open DendroModel.C11.Aux
 def covered : Op → Bool
   | .add _ (.trees _) => false
   | .lclone _ _ | .mclone _ _ | .lmig _ _ _ | .lrec _ _ | .mmig _ _ _ | .mrec _ _ | .dsunify _ _ | .dsread _ _ _ _ => false
-  | .readx _ _ _ | .tlget _ _ _ | .tget _ _ _ | .mget _ _ _ _ => false
+  | .readx _ _ _ | .tlget _ _ _ | .tget _ _ _ | .mget _ _ _ _ | .chain _ => false
   | _ => true
 
 /-- clauses (a),(c) hold in the empty world -/
@@ -1027,6 +1027,7 @@ theorem closed_step_partial (s : Store) (op : Op) (h : Inv s) (hv : valid s op =
   | dsunify d n => simp [covered] at hc
   | dsread d taxa rows trees => simp [covered] at hc
   | taadd n t => simp only [step]; exact h
+  | chain gs => simp [covered] at hc
   | readx l pre docs => simp [covered] at hc
   | tlget n pre docs => simp [covered] at hc
   | tget n pre labels => simp [covered] at hc
@@ -1551,8 +1552,8 @@ theorem tlFree_fact {s : Store} (h : Inv s) {l n : Nat} {ex : Option Nat} (hf : 
     rw [this] at hm; simp at hm
 
 /-- `TreeList.migrate_taxon_namespace` / `reconstruct_taxon_namespace` inside the ownership domain -/
-theorem inv_migrateTl {s : Store} (h : Inv s) (l n : Nat) (u : Bool) (hv : tlRebindOk s l n none = true) :
-    Inv (migrateTl s l n u []).1 := by
+theorem inv_migrateTl {s : Store} (h : Inv s) (l n : Nat) (u : Bool) (hv : tlRebindOk s l n none = true)
+    (memo : Memo := []) : Inv (migrateTl s l n u memo).1 := by
   have hcase : (s.tl l).ns = n ∨ ((∀ t, t ∈ (s.tl l).trees → ∀ l', l' ≠ l → t ∉ (s.tl l').trees)
       ∧ ∀ d a, (s.ds d).att = some a → l ∈ (s.ds d).tls → a = n) := by
     simp only [tlRebindOk, Bool.or_eq_true, beq_iff_eq, Bool.and_eq_true, List.all_eq_true] at hv
@@ -1563,7 +1564,7 @@ theorem inv_migrateTl {s : Store} (h : Inv s) (l n : Nat) (u : Bool) (hv : tlReb
       intro d a ha hm
       exact tlFree_fact h g d a (by simp) ha hm
   obtain ⟨i, a, b, c, _, _, _, _, _, _, nn, _, _⟩ := invW_migrateTl (P := fun l' => l' ≠ l) (Q := fun _ => True)
-    (invW_of_inv _ _ h) l n u [] (by simp)
+    (invW_of_inv _ _ h) l n u memo (by simp)
     (by
       intro d a _ ha hm
       rcases hcase with e | ⟨_, g⟩
@@ -1994,6 +1995,28 @@ theorem inv_readTreeBlock {s : Store} (h : Inv s) (d n : Nat) (docs : List (List
   rw [e]
   exact e3 t ht
 
+/-- several migrations sharing one caller-supplied memo, each inside the ownership domain in the store it meets -/
+theorem inv_chain : ∀ (gs : List Mig) {s : Store} (memo : Memo), Inv s → chainOk s memo gs = true → Inv (chain s memo gs).1
+  | [], _, _, h, _ => h
+  | g :: gs, s, memo, h, hv => by
+    simp only [chain]
+    simp only [chainOk] at hv
+    split
+    · next hk =>
+      simp only [hk, Bool.and_eq_true] at hv
+      exact inv_chain gs _ (inv_migrateTree h g.obj g.ns g.unify memo (ok_of_rebindOk_none h hv.1)) hv.2
+    · next hk =>
+      simp only [hk, Bool.and_eq_true, decide_eq_true_eq] at hv
+      exact inv_chain gs _ (inv_migrateTl h g.obj g.ns g.unify hv.1.2 memo) hv.2
+    · next hk =>
+      simp only [hk, Bool.and_eq_true, Bool.or_eq_true, beq_iff_eq] at hv
+      have i := inv_migrateMat h g.obj g.ns g.unify memo hv.1.2 (by
+        rcases hv.1.1 with e | f
+        · intro d a ha hm; rw [← e]; exact ((h.dsOk d a ha).2 g.obj hm).symm
+        · exact matFree_fact h f)
+      simp only [hv.1.2, if_true]
+      exact inv_chain gs _ i hv.2
+
 /-- trees read from a further source into list `l` (any schema: with or without a TAXA-like block) -/
 theorem inv_readInto {s : Store} (h : Inv s) (l : Nat) (pre : List String) (docs : List (List String)) (hl : l < s.nTl) :
     Inv (readInto s l pre docs) := by
@@ -2110,6 +2133,7 @@ theorem closed_step (s : Store) (op : Op) (h : Inv s) (hv : valid s op = true) :
     | dsread d taxa rows trees =>
       simp only [inRange, decide_eq_true_eq] at hr
       exact inv_dsread h d taxa rows trees hr
+    | chain gs => simp only [owner] at ho; simp only [step]; exact inv_chain gs [] h ho
     | readx l pre docs =>
       simp only [inRange, decide_eq_true_eq] at hr
       simp only [step]; exact inv_readInto h l pre docs hr
@@ -2607,6 +2631,84 @@ theorem mapKeys_unify_spec (n : Nat) : ∀ (xs : List Nat) (s : Store) (memo : M
             rw [e1.cs] at this; exact this
         · exact Or.inr h
 
+namespace Aux
+
+theorem length_filter_ne : ∀ (cur : List Nat) (x : Nat), cur.Nodup → x ∈ cur →
+    (cur.filter (fun k => k != x)).length + 1 = cur.length
+  | [], x, _, h => by simp at h
+  | a :: cur, x, hnd, hx => by
+    have hnd' := List.nodup_cons.mp hnd
+    by_cases e : a = x
+    · subst e
+      have : cur.filter (fun k => k != a) = cur := by
+        apply List.filter_eq_self.mpr
+        intro b hb
+        have : b ≠ a := fun e => hnd'.1 (e ▸ hb)
+        simpa using this
+      simp [this]
+    · have hx' : x ∈ cur := by
+        simp at hx
+        rcases hx with h | h
+        · exact absurd h.symm e
+        · exact h
+      have ih := length_filter_ne cur x hnd'.2 hx'
+      have : (a != x) = true := by simpa using e
+      simp only [List.filter_cons, this, if_true, List.length_cons]
+      omega
+
+end Aux
+
+/-- MATRICES, "NO SEQUENCE DROPPED OR MERGED".  A pass over the keys `xs` of a key list `cur` that lists no taxon twice (a dict), with
+`xs` among them: the result again lists no taxon twice (also when the pass is refused); and when the pass is ACCEPTED it has as many
+keys as before — every sequence is still there under a key of its own — and the keys the pass was not asked to process are kept. -/
+theorem mapKeys_accepted (n : Nat) (u : Bool) : ∀ (xs : List Nat) (s : Store) (memo : Memo) (cur : List Nat),
+    cur.Nodup → xs.Nodup → (∀ x, x ∈ xs → x ∈ cur) →
+    (mapKeys s n u memo cur xs).2.2.1.Nodup
+    ∧ ((mapKeys s n u memo cur xs).2.2.2 = true →
+        (mapKeys s n u memo cur xs).2.2.1.length = cur.length
+        ∧ ∀ y, y ∈ cur → y ∉ xs → y ∈ (mapKeys s n u memo cur xs).2.2.1)
+  | [], s, memo, cur, hc, _, _ => ⟨by simpa [mapKeys] using hc, fun _ => ⟨by simp [mapKeys], fun y hy _ => by simpa [mapKeys] using hy⟩⟩
+  | x :: xs, s, memo, cur, hc, hxs, hsub => by
+    have hxs' := List.nodup_cons.mp hxs
+    have hsub' : ∀ x', x' ∈ xs → x' ∈ cur := fun x' h => hsub x' (by simp [h])
+    simp only [mapKeys]
+    split
+    · split
+      · obtain ⟨a, b⟩ := mapKeys_accepted n u xs (mapOne s n u memo x).1 (mapOne s n u memo x).2.1 cur hc hxs'.2 hsub'
+        refine ⟨a, fun ok => ⟨(b ok).1, fun y hy hn => (b ok).2 y hy (fun h => hn (by simp [h]))⟩⟩
+      · split
+        · exact ⟨hc, fun ok => by simp at ok⟩
+        · next hne hnc =>
+          have tnot : (mapOne s n u memo x).2.2 ∉ cur := by simpa using hnc
+          have hc' : (cur.filter (fun k => k != x) ++ [(mapOne s n u memo x).2.2]).Nodup := by
+            rw [List.nodup_append]
+            refine ⟨hc.filter _, by simp, ?_⟩
+            intro a ha b hb
+            simp at hb
+            subst hb
+            intro e
+            subst e
+            exact tnot (List.mem_filter.mp ha).1
+          have hsub2 : ∀ x', x' ∈ xs → x' ∈ cur.filter (fun k => k != x) ++ [(mapOne s n u memo x).2.2] := by
+            intro x' h
+            have ne : x' ≠ x := fun e => hxs'.1 (e ▸ h)
+            simp only [List.mem_append, List.mem_filter]
+            left
+            exact ⟨hsub' x' h, by simpa using ne⟩
+          obtain ⟨a, b⟩ := mapKeys_accepted n u xs (mapOne s n u memo x).1 (mapOne s n u memo x).2.1 _ hc' hxs'.2 hsub2
+          refine ⟨a, fun ok => ⟨?_, ?_⟩⟩
+          · rw [(b ok).1]
+            simp only [List.length_append, List.length_singleton]
+            exact Aux.length_filter_ne cur x hc (hsub x (by simp))
+          · intro y hy hn
+            have ne : y ≠ x := fun e => hn (by simp [e])
+            apply (b ok).2 y
+            · simp only [List.mem_append, List.mem_filter]
+              left; exact ⟨hy, by simpa using ne⟩
+            · intro h; exact hn (by simp [h])
+    · obtain ⟨a, b⟩ := mapKeys_accepted n u xs s memo cur hc hxs'.2 hsub'
+      refine ⟨a, fun ok => ⟨(b ok).1, fun y hy hn => (b ok).2 y hy (fun h => hn (by simp [h]))⟩⟩
+
 /-- an accepted matrix pass leaves the matrix closed: bound to `n`, every sequence keyed by a member of `n` -/
 theorem migrateMat_ok_closed (s : Store) (m n : Nat) (u : Bool) (memo : Memo) (hok : (migrateMat s m n u memo).2.2 = true) :
     ((migrateMat s m n u memo).1.mat m).ns = n
@@ -2618,6 +2720,30 @@ theorem migrateMat_ok_closed (s : Store) (m n : Nat) (u : Bool) (memo : Memo) (h
   rcases Aux.mem_mapKeys n u _ s memo _ hok k hk with h | ⟨hc, hn⟩
   · exact h
   · exact absurd hc hn
+
+/-- `CharacterMatrix.migrate_taxon_namespace` / `reconstruct_taxon_namespace`, ACCEPTED, on a matrix whose key list names no taxon twice:
+the matrix keeps exactly as many sequences, each under a key of its own (no two merged), bound to `n`, every key a member of `n` -/
+theorem migrateMat_accepted_keeps_sequences (s : Store) (m n : Nat) (u : Bool) (memo : Memo) (hnd : (s.mat m).keys.Nodup)
+    (hok : (migrateMat s m n u memo).2.2 = true) :
+    ((migrateMat s m n u memo).1.mat m).keys.length = (s.mat m).keys.length
+    ∧ ((migrateMat s m n u memo).1.mat m).keys.Nodup
+    ∧ ((migrateMat s m n u memo).1.mat m).ns = n
+    ∧ ∀ k, k ∈ ((migrateMat s m n u memo).1.mat m).keys → k ∈ mem (migrateMat s m n u memo).1 n := by
+  obtain ⟨a, b⟩ := mapKeys_accepted n u (s.mat m).keys s memo (s.mat m).keys hnd hnd (fun _ h => h)
+  obtain ⟨c, d⟩ := migrateMat_ok_closed s m n u memo hok
+  simp only [migrateMat] at hok
+  have e : ((migrateMat s m n u memo).1.mat m).keys = (mapKeys s n u memo (s.mat m).keys (s.mat m).keys).2.2.1 := by
+    simp [migrateMat, upd]
+  rw [e]
+  exact ⟨(b hok).1, a, c, fun k hk => d k (by rw [e]; exact hk)⟩
+
+/-- ... and a refused pass still names no taxon twice (the key list stays a dict) -/
+theorem migrateMat_keys_nodup (s : Store) (m n : Nat) (u : Bool) (memo : Memo) (hnd : (s.mat m).keys.Nodup) :
+    ((migrateMat s m n u memo).1.mat m).keys.Nodup := by
+  have e : ((migrateMat s m n u memo).1.mat m).keys = (mapKeys s n u memo (s.mat m).keys (s.mat m).keys).2.2.1 := by
+    simp [migrateMat, upd]
+  rw [e]
+  exact (mapKeys_accepted n u (s.mat m).keys s memo (s.mat m).keys hnd hnd (fun _ h => h)).1
 
 /-- THE KNOWN FINDING, precisely: a refused label-unifying matrix pass leaves the matrix bound to the new namespace `n` with every
 sequence keyed either by a taxon of its previous key set (not moved) or by a label-resolved member of `n` — nothing else; it is
@@ -2955,6 +3081,279 @@ theorem migrateTls_unify_spec (n : Nat) : ∀ (ls : List Nat) (s : Store) (memo 
         exact hn l' (by simp [hl'])
       rw [f2 t' h2, st1]; exact f1 t' h1
 
+/-! ## the readers' last-match lookup and clause (b) for reads into a populated namespace -/
+
+/-- what "the readers' symbol table answers `y`" means: `y` is a member of the namespace carrying the label up to the case rule -/
+theorem resolvedLast_member_label (s : Store) (n : Nat) (c : Bool) (lbl : String) (y : Nat)
+    (h : lookupLast s n c lbl = some y) : y ∈ mem s n ∧ keyOf c (s.label y) = keyOf c lbl := by
+  unfold lookupLast at h
+  refine ⟨by simpa using List.mem_of_find?_eq_some h, by simpa using List.find?_some h⟩
+
+/-- two labels of a source are put on the same taxon exactly when they are equal under the case rule (readers) -/
+theorem same_taxon_iff_equal_labels_last (s : Store) (n : Nat) (c : Bool) (l1 l2 : String) (y1 y2 : Nat)
+    (h1 : lookupLast s n c l1 = some y1) (h2 : lookupLast s n c l2 = some y2) :
+    y1 = y2 ↔ keyOf c l1 = keyOf c l2 := by
+  constructor
+  · intro e
+    have a := (resolvedLast_member_label s n c l1 y1 h1).2
+    have b := (resolvedLast_member_label s n c l2 y2 h2).2
+    rw [← a, ← b, e]
+  · intro e
+    have : lookupLast s n c l1 = lookupLast s n c l2 := by simp only [lookupLast, e]
+    rw [this, h2] at h1
+    exact (Option.some.inj h1).symm
+
+namespace Aux
+
+theorem lookLast_newTaxon (s : Store) (n : Nat) (c : Bool) (l0 lbl : String) (hf : FreshNs s n) :
+    lookupLast (newTaxon s n l0).1 n c lbl
+      = if keyOf c l0 == keyOf c lbl then some s.nTaxa else lookupLast s n c lbl := by
+  simp only [lookupLast, newTaxon, mem, upd, if_true, List.reverse_append, List.reverse_cons, List.reverse_nil, List.nil_append,
+    List.singleton_append, List.find?_cons]
+  by_cases e : (keyOf c l0 == keyOf c lbl) = true
+  · simp [e]
+  · have e' : (keyOf c l0 == keyOf c lbl) = false := by simpa using e
+    simp only [e', if_true]
+    simp only [Bool.false_eq_true, if_false]
+    apply find?_congr'
+    intro x hx
+    have hx' : x ∈ (s.ns n).members := by simpa using hx
+    have : x ≠ s.nTaxa := Nat.ne_of_lt (hf x hx')
+    simp [this]
+
+/-- no member carries the label: the same for first- and last-match lookup -/
+theorem lookupLast_none_of_first {s : Store} {n : Nat} {c : Bool} {l : String} (h : lookupFirst s n c l = none) :
+    lookupLast s n c l = none := by
+  simp only [lookupFirst, lookupLast, List.find?_eq_none] at h ⊢
+  intro x hx
+  exact h x (by simpa using hx)
+
+/-- the store grew from `s0` without disturbing what the readers' table of `s0` answered for namespace `n` -/
+structure ExtL (n : Nat) (s0 s : Store) : Prop where
+  nT : s0.nTaxa ≤ s.nTaxa
+  cs : (s.ns n).cs = (s0.ns n).cs
+  fresh : FreshNs s n
+  lookL : ∀ lbl y, lookupLast s0 n (s0.ns n).cs lbl = some y → lookupLast s n (s0.ns n).cs lbl = some y
+
+theorem ExtL.refl {n : Nat} {s : Store} (hf : FreshNs s n) : ExtL n s s := ⟨Nat.le_refl _, rfl, hf, fun _ _ h => h⟩
+
+theorem ExtL.trans {n : Nat} {a b c : Store} (h1 : ExtL n a b) (h2 : ExtL n b c) : ExtL n a c :=
+  ⟨Nat.le_trans h1.nT h2.nT, h2.cs.trans h1.cs, h2.fresh,
+   fun lbl y h => by have := h2.lookL lbl y (by rw [h1.cs]; exact h1.lookL lbl y h); rw [h1.cs] at this; exact this⟩
+
+theorem extL_newTaxon (s : Store) (n : Nat) (l0 : String) (hf : FreshNs s n) (hnone : lookupLast s n (s.ns n).cs l0 = none) :
+    ExtL n s (newTaxon s n l0).1 := by
+  refine ⟨by simp [newTaxon], by simp [newTaxon, upd], (ext_newTaxon s n l0 hf).fresh, ?_⟩
+  intro lbl y h
+  rw [lookLast_newTaxon s n _ l0 lbl hf]
+  have ne : (keyOf (s.ns n).cs l0 == keyOf (s.ns n).cs lbl) = false := by
+    cases e : (keyOf (s.ns n).cs l0 == keyOf (s.ns n).cs lbl) with
+    | false => rfl
+    | true =>
+      have : keyOf (s.ns n).cs l0 = keyOf (s.ns n).cs lbl := by simpa using e
+      have : lookupLast s n (s.ns n).cs l0 = lookupLast s n (s.ns n).cs lbl := by simp only [lookupLast, this]
+      rw [this, h] at hnone; simp at hnone
+  simp [ne, h]
+
+theorem requireLast_spec (s : Store) (n : Nat) (l : String) (hf : FreshNs s n) :
+    ExtL n s (requireLast s n (s.ns n).cs l).1
+    ∧ lookupLast (requireLast s n (s.ns n).cs l).1 n (s.ns n).cs l = some (requireLast s n (s.ns n).cs l).2 := by
+  cases hl : lookupLast s n (s.ns n).cs l with
+  | some y =>
+    have r : requireLast s n (s.ns n).cs l = (s, y) := by unfold requireLast; rw [hl]
+    rw [r]; exact ⟨ExtL.refl hf, hl⟩
+  | none =>
+    have r : requireLast s n (s.ns n).cs l = newTaxon s n l := by unfold requireLast; rw [hl]
+    rw [r]
+    refine ⟨extL_newTaxon s n l hf hl, ?_⟩
+    rw [lookLast_newTaxon s n _ l l hf]; simp [newTaxon]
+
+/-- first-match `require_taxon` (a TAXA block) does not disturb the readers' table either -/
+theorem require_extL (s : Store) (n : Nat) (l : String) (hf : FreshNs s n) : ExtL n s (require s n (s.ns n).cs l).1 := by
+  cases hl : lookupFirst s n (s.ns n).cs l with
+  | some y => rw [require_of_lookup hl]; exact ExtL.refl hf
+  | none =>
+    have r : require s n (s.ns n).cs l = newTaxon s n l := by unfold require; rw [hl]
+    rw [r]; exact extL_newTaxon s n l hf (lookupLast_none_of_first hl)
+
+theorem requireList_extL (n : Nat) : ∀ (ls : List String) (s : Store) (c : Bool), c = (s.ns n).cs → FreshNs s n →
+    ExtL n s (requireList s n c ls).1
+  | [], s, _, _, hf => ExtL.refl hf
+  | l :: ls, s, c, hc, hf => by
+    subst hc
+    simp only [requireList]
+    have e1 := require_extL s n l hf
+    exact e1.trans (requireList_extL n ls _ _ e1.cs.symm e1.fresh)
+
+end Aux
+
+/-- position-wise relation between the labels of a source and the taxa they were put on -/
+def relL (R : String → Nat → Prop) : List String → List Nat → Prop
+  | [], [] => True
+  | l :: ls, y :: ys => R l y ∧ relL R ls ys
+  | _, _ => False
+
+namespace Aux
+
+theorem relL_mono {R R' : String → Nat → Prop} (h : ∀ l y, R l y → R' l y) : ∀ (ls : List String) (ys : List Nat),
+    relL R ls ys → relL R' ls ys
+  | [], [], _ => trivial
+  | [], _ :: _, hr => by simp [relL] at hr
+  | _ :: _, [], hr => by simp [relL] at hr
+  | l :: ls, y :: ys, hr => by simp only [relL] at hr ⊢; exact ⟨h l y hr.1, relL_mono h ls ys hr.2⟩
+
+theorem requireLastList_spec (n : Nat) : ∀ (ls : List String) (s : Store) (c : Bool), c = (s.ns n).cs → FreshNs s n →
+    relL (fun l y => lookupLast (requireLastList s n c ls).1 n c l = some y) ls (requireLastList s n c ls).2
+    ∧ ExtL n s (requireLastList s n c ls).1
+  | [], s, _, _, hf => ⟨trivial, ExtL.refl hf⟩
+  | l :: ls, s, c, hc, hf => by
+    subst hc
+    simp only [requireLastList, relL]
+    obtain ⟨e1, l1⟩ := requireLast_spec s n l hf
+    obtain ⟨r2, e2⟩ := requireLastList_spec n ls (requireLast s n (s.ns n).cs l).1 (s.ns n).cs e1.cs.symm e1.fresh
+    refine ⟨⟨?_, r2⟩, e1.trans e2⟩
+    have := e2.lookL _ _ (by rw [e1.cs]; exact l1)
+    rw [e1.cs] at this; exact this
+
+end Aux
+
+/-- CLAUSE (b) FOR ONE TREE STATEMENT READ INTO A (POSSIBLY POPULATED) NAMESPACE: every label of the statement is put on the taxon
+the readers' table of the grown namespace answers for it — a member carrying that label up to the case rule
+(`resolvedLast_member_label`); two labels share a taxon exactly when they are equal under the rule
+(`same_taxon_iff_equal_labels_last`); a label already present is never duplicated (the table answers an existing member). -/
+theorem readLabels_spec (s : Store) (n : Nat) (labs : List String) (hf : FreshNs s n) :
+    relL (fun l y => lookupLast (requireLastList s n (s.ns n).cs labs).1 n (s.ns n).cs l = some y
+                      ∧ y ∈ mem (requireLastList s n (s.ns n).cs labs).1 n) labs (requireLastList s n (s.ns n).cs labs).2
+    ∧ (∀ lbl y, lookupLast s n (s.ns n).cs lbl = some y →
+        lookupLast (requireLastList s n (s.ns n).cs labs).1 n (s.ns n).cs lbl = some y) := by
+  obtain ⟨r, e⟩ := Aux.requireLastList_spec n labs s (s.ns n).cs rfl hf
+  refine ⟨Aux.relL_mono (fun l y h => ⟨h, (resolvedLast_member_label _ n _ l y h).1⟩) _ _ r, e.lookL⟩
+
+/-- the tree statements of a source against the trees made from them: each new tree is a root without taxon over one leaf per
+label, the leaf of label `l` sitting on the taxon `R l` names -/
+def relDocs (σ : Store) (R : String → Nat → Prop) : List (List String) → List Nat → Prop
+  | [], [] => True
+  | labs :: ds, t :: ts => (∃ ys, (σ.tree t).taxa = none :: ys.map some ∧ relL R labs ys) ∧ relDocs σ R ds ts
+  | _, _ => False
+
+namespace Aux
+
+theorem readTrees_frame (n : Nat) : ∀ (docs : List (List String)) (σ : Store) (t : Nat), t < σ.nTree →
+    (readTrees σ n docs).1.tree t = σ.tree t ∧ σ.nTree ≤ (readTrees σ n docs).1.nTree
+  | [], _, _, _ => ⟨rfl, Nat.le_refl _⟩
+  | labs :: rest, σ, t, ht => by
+    simp only [readTrees]
+    have g := (grows_requireLastList n (σ.ns n).cs labs σ).1
+    have lt : t < (allocTree (requireLastList σ n (σ.ns n).cs labs).1
+        { ns := n, taxa := none :: (requireLastList σ n (σ.ns n).cs labs).2.map some }).1.nTree := by
+      simp only [allocTree]; rw [g.nTree]; omega
+    obtain ⟨a, b⟩ := readTrees_frame n rest _ t lt
+    refine ⟨?_, ?_⟩
+    · rw [a]
+      have : t ≠ (requireLastList σ n (σ.ns n).cs labs).1.nTree := by rw [g.nTree]; omega
+      simp only [allocTree, upd, this, if_false]
+      exact congrFun g.tree t
+    · have : σ.nTree ≤ (allocTree (requireLastList σ n (σ.ns n).cs labs).1
+        { ns := n, taxa := none :: (requireLastList σ n (σ.ns n).cs labs).2.map some }).1.nTree := by
+        simp only [allocTree]; rw [g.nTree]; omega
+      exact Nat.le_trans this b
+
+theorem relDocs_mono {σ σ' : Store} {R R' : String → Nat → Prop} (hR : ∀ l y, R l y → R' l y) :
+    ∀ (ds : List (List String)) (ts : List Nat), (∀ t, t ∈ ts → σ'.tree t = σ.tree t) → relDocs σ R ds ts → relDocs σ' R' ds ts
+  | [], [], _, _ => trivial
+  | [], _ :: _, _, h => by simp [relDocs] at h
+  | _ :: _, [], _, h => by simp [relDocs] at h
+  | labs :: ds, t :: ts, hf, h => by
+    simp only [relDocs] at h ⊢
+    obtain ⟨⟨ys, e, r⟩, rest⟩ := h
+    refine ⟨⟨ys, by rw [hf t (by simp)]; exact e, relL_mono hR _ _ r⟩, relDocs_mono hR ds ts (fun t' ht' => hf t' (by simp [ht'])) rest⟩
+
+end Aux
+
+/-- CLAUSE (b) FOR A WHOLE SOURCE OF TREES (Newick / NeXML / the TREES block of NEXUS) read into a possibly populated namespace:
+every new tree is bound to `n` with a taxon-less root over one leaf per label, and every leaf sits on what the readers' table of
+the FINAL namespace answers for its label; what the table answered before the read it still answers (existing taxa are reused,
+never duplicated). -/
+theorem readTrees_spec (n : Nat) : ∀ (docs : List (List String)) (s : Store), FreshNs s n →
+    relDocs (readTrees s n docs).1 (fun l y => lookupLast (readTrees s n docs).1 n (s.ns n).cs l = some y) docs (readTrees s n docs).2
+    ∧ Aux.ExtL n s (readTrees s n docs).1
+    ∧ (∀ t, t ∈ (readTrees s n docs).2 → s.nTree ≤ t ∧ t < (readTrees s n docs).1.nTree)
+  | [], s, hf => ⟨trivial, Aux.ExtL.refl hf, by simp [readTrees]⟩
+  | labs :: rest, s, hf => by
+    simp only [readTrees]
+    obtain ⟨r1, e1⟩ := Aux.requireLastList_spec n labs s (s.ns n).cs rfl hf
+    have g := (Aux.grows_requireLastList n (s.ns n).cs labs s).1
+    -- the store after the first tree was allocated: same namespaces and labels as after its labels were resolved
+    have e1a : Aux.ExtL n s (allocTree (requireLastList s n (s.ns n).cs labs).1
+        { ns := n, taxa := none :: (requireLastList s n (s.ns n).cs labs).2.map some }).1 :=
+      ⟨e1.nT, e1.cs, e1.fresh, e1.lookL⟩
+    obtain ⟨r2, e2, b2⟩ := readTrees_spec n rest _ e1a.fresh
+    have lt0 : (requireLastList s n (s.ns n).cs labs).1.nTree < (allocTree (requireLastList s n (s.ns n).cs labs).1
+        { ns := n, taxa := none :: (requireLastList s n (s.ns n).cs labs).2.map some }).1.nTree := by simp [allocTree]
+    obtain ⟨fr, le⟩ := Aux.readTrees_frame n rest _ _ lt0
+    refine ⟨?_, e1a.trans e2, ?_⟩
+    · simp only [relDocs]
+      refine ⟨⟨(requireLastList s n (s.ns n).cs labs).2, ?_, ?_⟩, ?_⟩
+      · show ((readTrees _ n rest).1.tree (requireLastList s n (s.ns n).cs labs).1.nTree).taxa = _
+        rw [fr]; simp [allocTree, upd]
+      · refine Aux.relL_mono ?_ _ _ r1
+        intro l y h
+        have := e2.lookL l y (by rw [e1a.cs]; exact h)
+        rw [e1a.cs] at this; exact this
+      · refine Aux.relDocs_mono ?_ _ _ (fun _ _ => rfl) r2
+        intro l y h
+        rw [e1a.cs] at h; exact h
+    · intro t ht
+      simp at ht
+      rcases ht with e | ht
+      · subst e
+        refine ⟨by simp only [allocTree]; rw [g.nTree]; exact Nat.le_refl _, Nat.lt_of_lt_of_le lt0 le⟩
+      · obtain ⟨x, y⟩ := b2 t ht
+        refine ⟨?_, y⟩
+        have : s.nTree ≤ (allocTree (requireLastList s n (s.ns n).cs labs).1
+          { ns := n, taxa := none :: (requireLastList s n (s.ns n).cs labs).2.map some }).1.nTree := by
+          simp only [allocTree]; rw [g.nTree]; omega
+        exact Nat.le_trans this x
+
+/-- `TreeList.read` / `TreeList.get(taxon_namespace=…)` of a further source (any schema; `pre` = the labels of a TAXA-like block,
+resolved first): the trees appended to the list satisfy `readTrees_spec` against the final store, and everything the readers'
+table answered before the read (the taxa the list's older trees sit on) it still answers afterwards -/
+theorem readInto_spec (s : Store) (l : Nat) (pre : List String) (docs : List (List String)) (hf : FreshNs s (s.tl l).ns) :
+    ∃ new, ((readInto s l pre docs).tl l).trees = (s.tl l).trees ++ new
+      ∧ relDocs (readInto s l pre docs) (fun lb y => lookupLast (readInto s l pre docs) (s.tl l).ns (s.ns (s.tl l).ns).cs lb = some y) docs new
+      ∧ (∀ lb y, lookupLast s (s.tl l).ns (s.ns (s.tl l).ns).cs lb = some y →
+            lookupLast (readInto s l pre docs) (s.tl l).ns (s.ns (s.tl l).ns).cs lb = some y) := by
+  have e0 := Aux.requireList_extL (s.tl l).ns pre s (s.ns (s.tl l).ns).cs rfl hf
+  obtain ⟨r, e, _⟩ := readTrees_spec (s.tl l).ns docs (requireList s (s.tl l).ns (s.ns (s.tl l).ns).cs pre).1 e0.fresh
+  have g0 := (Aux.grows_requireList (s.tl l).ns (s.ns (s.tl l).ns).cs pre s).1
+  have tlsame : (readTrees (requireList s (s.tl l).ns (s.ns (s.tl l).ns).cs pre).1 (s.tl l).ns docs).1.tl = s.tl := by
+    -- the readers allocate trees and taxa only
+    have gen : ∀ (ds : List (List String)) (σ : Store), (readTrees σ (s.tl l).ns ds).1.tl = σ.tl := by
+      intro ds
+      induction ds with
+      | nil => intro σ; rfl
+      | cons a ds ih =>
+        intro σ
+        simp only [readTrees]
+        rw [ih]
+        simp only [allocTree]
+        exact (Aux.grows_requireLastList (s.tl l).ns (σ.ns (s.tl l).ns).cs a σ).1.tl
+    rw [gen]; exact g0.tl
+  refine ⟨(readTrees (requireList s (s.tl l).ns (s.ns (s.tl l).ns).cs pre).1 (s.tl l).ns docs).2, ?_, ?_, ?_⟩
+  · simp only [readInto, setTrees, upd, if_true]
+    rw [tlsame]
+  · simp only [readInto]
+    refine Aux.relDocs_mono ?_ _ _ ?_ r
+    · intro lb y h
+      rw [e0.cs] at h
+      exact h
+    · intro t _; rfl
+  · intro lb y h
+    simp only [readInto]
+    have := e.lookL lb y (by rw [e0.cs]; exact e0.lookL lb y h)
+    rw [e0.cs] at this
+    exact this
+
 /-! ## freshness is a history invariant (not a hypothesis) -/
 
 open DendroModel.C11.Fresh in
@@ -3163,6 +3562,7 @@ theorem fresh_step (s : Store) (op : Op) (h : FrAll s) : FrAll (step s op).1 := 
         | none => simp only [step, hatt]; exact c2 rws
         | some docs => simp only [step, hatt]; exact c3 _ (c2 rws) docs
   | taadd n t => simp only [step]; exact h
+  | chain gs => simp only [step]; exact frAll_chain gs [] h (mv_nil s)
   | readx l pre docs => simp only [step]; exact frAll_readInto h l pre docs
   | tlget n pre docs => simp only [step]; exact frAll_readInto (frAll_allocTl h n) _ pre docs
   | tget n pre labels =>
@@ -3310,6 +3710,23 @@ example : ((migrateTl demo2 0 0 true []).1.tree 0).taxa = [some 5, some 0] ∧ (
 /-- `cloneTree_spec` with its hypotheses proved for a reachable world (closure by `closed_reachable`, freshness by `fresh_reachable`) -/
 example := cloneTree_spec demo2 1 0
   (closed_reachable _ init Aux.inv_init (by decide +kernel)) (fresh_reachable _ init Fresh.frAll_init) (by decide +kernel)
+
+/-- a reachable world with a matrix on the case variants `a`, `A` and on `C` (case-sensitive namespace 0), an empty case-sensitive
+namespace 1 and an empty case-insensitive namespace 2 -/
+def demo3 : Store := run init [.ns true ["a", "A", "C"], .ns true [], .ns false [], .mat 0 [0, 1, 2]]
+
+/-- `migrateMat_accepted_keeps_sequences`: hypotheses proved on it (keys name no taxon twice; the pass into namespace 1 is accepted) ... -/
+example := migrateMat_accepted_keeps_sequences demo3 0 1 true [] (by decide +kernel) (by decide +kernel)
+
+/-- ... while the pass into the case-insensitive namespace 2 is refused (`a` and `A` would share a taxon), so the hypothesis matters -/
+example : (migrateMat demo3 0 2 true []).2.2 = false := by decide +kernel
+
+/-- `readInto_spec` on the reachable world `demo2` (freshness proved by `freshNs_reachable`): a source with a known and a new label ... -/
+example := readInto_spec demo2 0 [] [["A", "z"]] (freshNs_reachable _ _ 0).1
+
+/-- ... the known label reuses the existing taxon `A` (3) of the case-sensitive namespace 1, only `z` is new (5) -/
+example : mem (readInto demo2 0 [] [["A", "z"]]) 1 = [2, 3, 4, 5]
+    ∧ ((readInto demo2 0 [] [["A", "z"]]).tree 2).taxa = [none, some 3, some 5] := by decide +kernel
 
 /-- a valid history through the collection-level operations of `closed_step`: list migration, copy, `+` with a plain list,
 matrix migration and copy, data-set read and unification -/
